@@ -108,7 +108,16 @@ def read_tables(repo: Path) -> Dict[str, Any]:
         tree = ast.parse((src / "compilers" / file).read_text())
         node = _find_assign(tree, var)
         t[key] = _str_dict(node) if node is not None else None
+    # `from .core_defs import MAX_MESSAGE_TYPES` (parser.py): the bound of `validate_msg_id`
+    mx = None
+    try:
+        node = _find_assign(ast.parse((src / "core_defs.py").read_text()), "MAX_MESSAGE_TYPES")
+        if isinstance(node, ast.Constant) and isinstance(node.value, int):
+            mx = node.value
+    except OSError:
+        pass
     missing = [k for k, v in t.items() if v is None]
+    t["maxMessageTypes"] = mx if mx is not None else sys.maxsize   # the parser's own fallback
     if missing:
         # fallback: import and read the objects (parserCtypes lives inside a method: no fallback)
         if "supported" in missing:
@@ -146,6 +155,8 @@ def generate(repo: Path) -> Dict[str, str]:
         L.append(f"def {key} : List (String × String) := [")
         L.append(",\n".join(f"  ({_ls(k)}, {_ls(v)})" for k, v in t[key]))
         L.append("]\n")
+    L.append("/-- `core_defs.MAX_MESSAGE_TYPES` (upper bound of `Parser.validate_msg_id`) -/")
+    L.append(f"def maxMessageTypes : Nat := {t['maxMessageTypes']}\n")
     L.append("end Pyrtma.Gen.TypeTables\n")
     return {"Pyrtma/Gen/TypeTables.lean": "\n".join(L)}
 
